@@ -35,7 +35,8 @@ LEVEL_NOTE = ("Trusted: model/suites.py, sim/observe.py wire parsers, "
 BUDGET = {"quick": 300, "thorough": 1200}
 CHUNK = 8
 PROBES = ["both_complete", "both_failed", "one_sided", "tls13", "tls12",
-          "legacy", "sslv3", "client_auth", "srp", "anon", "psk", "alpn",
+          "legacy", "sslv3", "client_auth", "srp", "anon", "psk",
+          "psk_mode_psk_ke", "psk_mode_psk_dhe_ke", "alpn",
           "npn", "sni", "hrr", "ecdhe", "dhe", "rsa_kx", "ems_off", "etm_off",
           "rsl", "no_common_version", "no_common_suite"]
 COMPONENTS_REAL = ["tlslite client+server handshakes, HandshakeSettings."
@@ -82,6 +83,14 @@ def draw_case(ch):
         sc["skey"] = "rsa"
         c["pskConfigs"] = [list(scen.PSK_HEX)]
         s["pskConfigs"] = [list(scen.PSK_HEX)]
+        # PSK key-exchange mode policies of both sides
+        modes = [None, ["psk_ke"], ["psk_dhe_ke"], ["psk_dhe_ke", "psk_ke"]]
+        mc = modes[ch.draw(4, "psk.modes_c")]
+        ms = modes[ch.draw(4, "psk.modes_s")]
+        if mc:
+            c["psk_modes"] = mc
+        if ms:
+            s["psk_modes"] = ms
     o = ch.draw(8, "opt")
     if o == 1:
         sc["alpn_c"] = ["h2", "http/1.1"]
@@ -303,6 +312,18 @@ def run(job, streams=None):
             probes["rsl"] = 1
         if sc["flavour"] == "psk" and ver == (3, 4):
             probes["psk"] = 1
+            if "sh" in obs and 41 in obs["sh"]["ext"]:
+                # the mode actually used: no key_share in ServerHello means
+                # PSK-only key establishment
+                mode = "psk_dhe_ke" if 51 in obs["sh"]["ext"] else "psk_ke"
+                probes["psk_mode_" + mode] = 1
+                for side in ("cset", "sset"):
+                    allowed = sc[side].get("psk_modes") or \
+                        ["psk_dhe_ke", "psk_ke"]
+                    if mode not in allowed:
+                        v("containment", "psk_mode|%s|%s" % (side, mode),
+                          "PSK key exchange mode %s was used, %s allows only "
+                          "%s" % (mode, side, allowed))
     elif not okc and not oks:
         probes["both_failed"] = 1
         verdict = all(isinstance(o.exc, TLSAlert) for o in (oc, os_)
